@@ -27,7 +27,8 @@ namespace BitSerializer
 			}
 			else
 			{
-				return Detail::ConvertByPolicy(tpValue, timestamp, archive.GetOptions().mismatchedTypesPolicy, archive.GetOptions().overflowNumberPolicy)
+				// A value that cannot be saved is an error under any policy (skipping it would leave a counted item of the binary archive unwritten)
+				return Detail::ConvertByPolicy(tpValue, timestamp, MismatchedTypesPolicy::ThrowError, OverflowNumberPolicy::ThrowError)
 					&& archive.SerializeValue(std::forward<TKey>(key), timestamp);
 			}
 		}
@@ -67,7 +68,8 @@ namespace BitSerializer
 			}
 			else
 			{
-				return Detail::ConvertByPolicy(tpValue, timestamp, archive.GetOptions().mismatchedTypesPolicy, archive.GetOptions().overflowNumberPolicy)
+				// A value that cannot be saved is an error under any policy (skipping it would leave a counted item of the binary archive unwritten)
+				return Detail::ConvertByPolicy(tpValue, timestamp, MismatchedTypesPolicy::ThrowError, OverflowNumberPolicy::ThrowError)
 					&& archive.SerializeValue(timestamp);
 			}
 		}
@@ -107,7 +109,8 @@ namespace BitSerializer
 			}
 			else
 			{
-				return Detail::ConvertByPolicy(value, timestamp, archive.GetOptions().mismatchedTypesPolicy, archive.GetOptions().overflowNumberPolicy)
+				// A value that cannot be saved is an error under any policy (skipping it would leave a counted item of the binary archive unwritten)
+				return Detail::ConvertByPolicy(value, timestamp, MismatchedTypesPolicy::ThrowError, OverflowNumberPolicy::ThrowError)
 					&& archive.SerializeValue(std::forward<TKey>(key), timestamp);
 			}
 		}
@@ -147,7 +150,8 @@ namespace BitSerializer
 			}
 			else
 			{
-				return Detail::ConvertByPolicy(value, timestamp, archive.GetOptions().mismatchedTypesPolicy, archive.GetOptions().overflowNumberPolicy)
+				// A value that cannot be saved is an error under any policy (skipping it would leave a counted item of the binary archive unwritten)
+				return Detail::ConvertByPolicy(value, timestamp, MismatchedTypesPolicy::ThrowError, OverflowNumberPolicy::ThrowError)
 					&& archive.SerializeValue(timestamp);
 			}
 		}
